@@ -79,9 +79,13 @@ type PublicationChange struct {
 
 func (m *Model) PullPublication(ctx context.Context, id string, opts ...resource.ReadOption) <-chan PublicationChange {
 	send := make(chan PublicationChange)
+	// subscribe before returning: a removal that happens right after this call returns must not be missed
+	// (the goroutine below may not have run by then); when ctx is cancelled, or the publication is deleted, then the
+	// resource will close recv for us
+	recv := m.publications.PullID(ctx, id, opts...)
 	go func() {
 		defer close(send)
-		for change := range m.publications.PullID(ctx, id, opts...) {
+		for change := range recv {
 			select {
 			case <-ctx.Done():
 				return
